@@ -1101,6 +1101,54 @@ def Decoder_DecodePackedFixed32.body (fuel : Nat) : Decoder_DecodePackedFixed32.
 def Decoder_DecodePackedFixed32 (fuel : Nat) (d_p : Bytes) (d_offset : BitVec 64) (d_mode : BitVec 64) (d_keyStart : BitVec 64) (d_keyEnd : BitVec 64) : Go.Out Decoder_DecodePackedFixed32.St Decoder_DecodePackedFixed32.R :=
   Decoder_DecodePackedFixed32.body fuel { d_p := d_p, d_offset := d_offset, d_mode := d_mode, d_keyStart := d_keyStart, d_keyEnd := d_keyEnd }
 
+/-! ### `Decoder.DecodePackedBool` (/repo/decoder.go:402:1) -/
+
+structure Decoder_DecodePackedBool.St where
+  d_p : Bytes
+  d_offset : BitVec 64
+  d_mode : BitVec 64
+  d_keyStart : BitVec 64
+  d_keyEnd : BitVec 64
+  l : BitVec 64 := 0#64
+  nRead : BitVec 64 := 0#64
+  n : BitVec 64 := 0#64
+  err : Go.Err := Go.Err.nil
+  res : List Bool := []
+  packedDataStart : BitVec 64 := 0#64
+  v : BitVec 64 := 0#64
+  n_1 : BitVec 64 := 0#64
+  err_1 : Go.Err := Go.Err.nil
+
+abbrev Decoder_DecodePackedBool.R := List Bool × Go.Err
+
+def Decoder_DecodePackedBool.loop1.cond : Decoder_DecodePackedBool.St → Option Bool := (fun s => some (BitVec.ult s.nRead s.l))
+def Decoder_DecodePackedBool.loop1.body (fuel : Nat) : Decoder_DecodePackedBool.St → Go.Out Decoder_DecodePackedBool.St Decoder_DecodePackedBool.R :=
+  (Go.seq (fun s => if (BitVec.sle (BitVec.ofNat 64 s.d_p.length) s.d_offset) then (fun s => .ret (([] : List Bool), Go.Err.unexpectedEOF) s) s else Go.skip s)
+    (Go.seq (fun s => if ((s.d_offset).toNat ≤ s.d_p.length) then match (DecodeVarint fuel (s.d_p.drop (s.d_offset).toNat)) with | .ret r c => .next { s with v := r.1, n_1 := r.2.1, err_1 := r.2.2 } | .next _ => .panic | .panic => .panic | .diverge => .diverge else .panic)
+    (Go.seq (fun s => if (s.err_1 != Go.Err.nil) then (fun s => .ret (([] : List Bool), s.err_1) s) s else Go.skip s)
+    (Go.seq (fun s => if (s.n_1 == 0#64) then (fun s => .ret (([] : List Bool), Go.Err.invalidVarint) s) s else Go.skip s)
+    (Go.seq (fun s => .next { s with nRead := (s.nRead + s.n_1) })
+    (Go.seq (fun s => .next { s with d_offset := (s.d_offset + s.n_1) })
+    (fun s => .next { s with res := (s.res ++ [(s.v != 0#64)]) })))))))
+def Decoder_DecodePackedBool.loop1.post : Decoder_DecodePackedBool.St → Go.Out Decoder_DecodePackedBool.St Decoder_DecodePackedBool.R := Go.skip
+
+/-- the body of `Decoder_DecodePackedBool`, statement by statement -/
+def Decoder_DecodePackedBool.body (fuel : Nat) : Decoder_DecodePackedBool.St → Go.Out Decoder_DecodePackedBool.St Decoder_DecodePackedBool.R :=
+  (Go.seq (Go.seq (fun s => if (BitVec.sle (BitVec.ofNat 64 s.d_p.length) s.d_offset) then (fun s => .ret (([] : List Bool), Go.Err.unexpectedEOF) s) s else Go.skip s)
+    (Go.seq Go.skip
+    (Go.seq (fun s => if ((s.d_offset).toNat ≤ s.d_p.length) then match (DecodeVarint fuel (s.d_p.drop (s.d_offset).toNat)) with | .ret r c => .next { s with l := r.1, n := r.2.1, err := r.2.2 } | .next _ => .panic | .panic => .panic | .diverge => .diverge else .panic)
+    (Go.seq (fun s => if (s.err != Go.Err.nil) then (fun s => .ret (([] : List Bool), s.err) s) s else Go.skip s)
+    (Go.seq (fun s => if (s.n == 0#64) then (fun s => .ret (([] : List Bool), Go.Err.invalidVarint) s) s else Go.skip s)
+    (Go.seq (fun s => .next { s with d_offset := (s.d_offset + s.n) })
+    (Go.seq (fun s => .next { s with packedDataStart := s.d_offset })
+    (Go.seq (Go.seq Go.skip (Go.loop Decoder_DecodePackedBool.loop1.cond (Decoder_DecodePackedBool.loop1.body fuel) Decoder_DecodePackedBool.loop1.post fuel))
+    (Go.seq (fun s => if (s.nRead != s.l) then (fun s => .ret (([] : List Bool), (Go.Err.other "ErrInvalidPackedData")) s) s else Go.skip s)
+    (fun s => .ret (s.res, Go.Err.nil) s))))))))))
+    Go.missingReturn)
+
+def Decoder_DecodePackedBool (fuel : Nat) (d_p : Bytes) (d_offset : BitVec 64) (d_mode : BitVec 64) (d_keyStart : BitVec 64) (d_keyEnd : BitVec 64) : Go.Out Decoder_DecodePackedBool.St Decoder_DecodePackedBool.R :=
+  Decoder_DecodePackedBool.body fuel { d_p := d_p, d_offset := d_offset, d_mode := d_mode, d_keyStart := d_keyStart, d_keyEnd := d_keyEnd }
+
 /-! ### `Encoder.EncodeBool` (/repo/encoder.go:25:1) -/
 
 structure Encoder_EncodeBool.St where
